@@ -2267,14 +2267,14 @@ func scanFlagNest(c *core.Ctx) []ob {
 			n++
 			key := fmt.Sprintf("FLAGNEST:%s#%s.%s/%s", fkey, owner, flag, other)
 			if inThen && inElse {
-				out = append(out, withProps(okOb("FLAGNEST", key, c.Rel(outer.Pos()), "both arms of the test handle the other flag", true), bufProps(fkey)...))
+				out = append(out, withProps(okOb("FLAGNEST", key, c.Rel(outer.Pos()), "both arms of the test handle the other flag", true), flagNestProps(fkey)...))
 				return true
 			}
 			arm := "else"
 			if inElse {
 				arm = "then"
 			}
-			out = append(out, withProps(violOb("FLAGNEST", key, c.Rel(outer.Pos()), fmt.Sprintf("%s tests %s.%s only inside one arm of its test of %s.%s: in the %s arm the flag %s is ignored, although the two flags are independent", fkey, owner, other, owner, flag, arm, other)), bufProps(fkey)...))
+			out = append(out, withProps(violOb("FLAGNEST", key, c.Rel(outer.Pos()), fmt.Sprintf("%s tests %s.%s only inside one arm of its test of %s.%s: in the %s arm the flag %s is ignored, although the two flags are independent", fkey, owner, other, owner, flag, arm, other)), flagNestProps(fkey)...))
 			return true
 		})
 	})
@@ -2295,4 +2295,14 @@ func init() {
 			}
 			return out
 		}})
+}
+
+func flagNestProps(fkey string) []string {
+	switch {
+	case strings.HasPrefix(fkey, "core/rgsw"):
+		return []string{"C20", "C03"}
+	case strings.Contains(fkey, "Encryptor") || strings.Contains(fkey, "Decryptor") || strings.Contains(fkey, "KeyGenerator"):
+		return []string{"C03"}
+	}
+	return bufProps(fkey)
 }
